@@ -30,8 +30,26 @@ BIN = {ast.Add: ast.Sub, ast.Sub: ast.Add, ast.Mult: ast.Div, ast.Div: ast.Mult,
        ast.FloorDiv: ast.Mult, ast.Mod: ast.FloorDiv, ast.MatMult: ast.Mult}
 
 
+_PARAMS, _SIBS = {}, {}
+
+
+def _prepare(fn):
+    """parameter names and, per `self.<attr>` read, the next other attribute read on
+    self in the same function (a plausible mix-up)."""
+    _PARAMS[id(fn)] = [a.arg for a in fn.args.args + fn.args.kwonlyargs]
+    attrs = []
+    for x in ast.walk(fn):
+        if isinstance(x, ast.Attribute) and isinstance(x.ctx, ast.Load) \
+                and isinstance(x.value, ast.Name) and x.value.id == "self" \
+                and x.attr not in attrs:
+            attrs.append(x.attr)
+    _SIBS[id(fn)] = {a: attrs[(i + 1) % len(attrs)] for i, a in enumerate(attrs)} \
+        if len(attrs) > 1 else {}
+
+
 def sites(fn):
     """(kind, index, description) for every mutation site inside a function node."""
+    _prepare(fn)
     out = []
     counters = {}
 
@@ -64,15 +82,68 @@ def sites(fn):
             add("del_stmt", x, "delete " + ast.unparse(x)[:60])
         if isinstance(x, ast.UnaryOp) and isinstance(x.op, (ast.Not, ast.USub)):
             add("drop_unary", x, "drop " + ast.unparse(x)[:50])
+        if isinstance(x, ast.Call):
+            for kwd in x.keywords:
+                if kwd.arg is not None:
+                    add("drop_kwarg", x, f"drop keyword {kwd.arg}= in " + ast.unparse(x)[:45])
+            names = [a for a in x.args if isinstance(a, ast.Name)]
+            if len(names) >= 1 and _PARAMS.get(id(fn)):
+                for a in names:
+                    others = [p_ for p_ in _PARAMS[id(fn)] if p_ != a.id and p_ != "self"]
+                    if others:
+                        add("arg_name", x, f"arg {a.id} -> {others[0]} in " + ast.unparse(x)[:45])
+        if isinstance(x, ast.Attribute) and isinstance(x.ctx, ast.Load) \
+                and isinstance(x.value, ast.Name) and x.value.id == "self":
+            sib = _SIBS.get(id(fn), {}).get(x.attr)
+            if sib:
+                add("attr_sibling", x, f"self.{x.attr} -> self.{sib}")
         if isinstance(x, ast.Return) and x.value is not None and not isinstance(
                 x.value, ast.Constant):
             pass
     return out
 
 
+def _mutate_multi(fn, kind, index):
+    """kinds that have several sites per node (same enumeration order as sites())."""
+    _prepare(fn)
+    count = 0
+    for x in ast.walk(fn):
+        if x is fn:
+            continue
+        if kind == "drop_kwarg" and isinstance(x, ast.Call):
+            for kwd in list(x.keywords):
+                if kwd.arg is not None:
+                    if count == index:
+                        x.keywords.remove(kwd)
+                        return True
+                    count += 1
+        elif kind == "arg_name" and isinstance(x, ast.Call):
+            names = [a for a in x.args if isinstance(a, ast.Name)]
+            if len(names) >= 1 and _PARAMS.get(id(fn)):
+                for a in names:
+                    others = [p_ for p_ in _PARAMS[id(fn)] if p_ != a.id and p_ != "self"]
+                    if others:
+                        if count == index:
+                            a.id = others[0]
+                            return True
+                        count += 1
+        elif kind == "attr_sibling" and isinstance(x, ast.Attribute) \
+                and isinstance(x.ctx, ast.Load) and isinstance(x.value, ast.Name) \
+                and x.value.id == "self":
+            sib = _SIBS.get(id(fn), {}).get(x.attr)
+            if sib:
+                if count == index:
+                    x.attr = sib
+                    return True
+                count += 1
+    return False
+
+
 def mutate(fn, kind, index):
     """Mutate in place (fn is a deep copy inside its module tree); uses the same walk
     order as sites()."""
+    if kind in ("drop_kwarg", "arg_name", "attr_sibling"):
+        return _mutate_multi(fn, kind, index)
     count = 0
     for x in ast.walk(fn):
         if x is fn:
@@ -214,6 +285,8 @@ def main():
     ap.add_argument("--only", default="")
     ap.add_argument("--max-per-fn", type=int, default=60)
     ap.add_argument("--out", default="/tmp/mutation_survivors.json")
+    ap.add_argument("--kinds", default="",
+                    help="comma-separated mutation kinds to keep (default: all)")
     ap.add_argument("--unconsulted", action="store_true",
                     help="mutate the functions of the anchor files that NO rule consults")
     ap.add_argument("--from-survivors", default="",
@@ -247,7 +320,10 @@ def main():
         mod = fi.module.name
         parts = q[len(mod) + 1:].split(".")
         parts = [x.replace("#setter", "") for x in parts]
-        ss = sites(fi.node)[: args.max_per_fn]
+        ss = sites(fi.node)
+        if args.kinds:
+            ss = [x for x in ss if x[0] in args.kinds.split(",")]
+        ss = ss[: args.max_per_fn]
         for kind, index, desc in ss:
             tasks.append((fi.module.relpath, parts, kind, index, desc, PROPS, q))
     if args.from_survivors:
